@@ -123,8 +123,14 @@ def eval_rewrite(case) -> Verdict:
                 if any(ch in rest for k in LOOKALIKE for ch in k):
                     v.labels.append("malformed-lookalike")  # (only a minimiser candidate can look like this)
                     return v
+        counts = {x: srcs[1]["main"].count(x) for x in d2}
         for k, real in LOOKALIKE.items():
             srcs[1]["main"] = srcs[1]["main"].replace(k, real)
+        if any(srcs[1]["main"].count(x) != n for x, n in counts.items()):
+            # the look-alike text, next to what stands before or after it, spells one of the custom delimiters
+            # ("<" followed by "%}" under the tag delimiter "<%"): a collision with the template text
+            v.labels.append("collision")
+            return v
     for d in (d1, d2):
         # a start delimiter ending in '-' or an end delimiter starting with '-' cannot be told from the whitespace
         # control hyphen that may stand in that very place: such delimiters collide with the syntax itself
